@@ -289,7 +289,7 @@ def scenario(ctx):
         if len(got) < len(sent) and got == sent[:len(got)]:
             raise Violation('C04/sequence', 'missing',
                             'only %d of %d messages delivered (buffer holds %d bytes)'
-                            % (len(got), len(sent), len(proto._buffer)))
+                            % (len(got), len(sent), len(getattr(proto, '_buffer', b''))))
         raise Violation('C04/sequence', 'differs',
                         'frame %d differs or is extra: delivered %d frames, sent %d'
                         % (n, len(got), len(sent)))
@@ -298,9 +298,9 @@ def scenario(ctx):
                         '%d typed callbacks for %d messages' % (len(record['typed']), len(msgs)))
     for i, (ref, (mt, m)) in enumerate(zip(msgs, record['typed'])):
         check_typed(i, ref, mt, m)
-    if proto._buffer:
+    if getattr(proto, '_buffer', b''):
         raise Violation('C04/residual', 'buffer', '%d bytes left in the framing buffer'
-                        % len(proto._buffer))
+                        % len(getattr(proto, '_buffer', b'')))
 
 
 def sweep(tier):
